@@ -91,6 +91,36 @@ def h_arrays(ctx):
     ctx.outcome("ndim=%d" % len(sh))
     ctx.nontrivial(n > 1)
 
+DEC = [0.1, 0.2, 0.7, 1.3]
+OFFSETS = [273.15, -1234.5678, 101325.0]
+
+
+def h_offset(ctx):
+    """decimal values on a large common offset (Kelvin-like data): an algebraically equal but cancelling evaluation
+    (one-pass variance) is off by ~1e-10..1e-6 or negative here; the reference sums exactly (fsum, two passes)"""
+    sh = ctx.choose("shape", [(2,), (3,), (2, 2), (2, 3)], free=True)
+    off = ctx.choose("offset", OFFSETS, free=True)
+    n = int(np.prod(sh))
+    vals = [ctx.choose("v%d" % i, DEC if i < 4 else DEC[:2], free=True) + off for i in range(n)]
+    arr = np.array(vals, dtype=float).reshape(sh)
+    ctx.note("array", arr.tolist())
+    for axis in [None] + list(range(len(sh))):
+        for a in AGGS:
+            agg = get_agg(a)
+            kind, got, site, _ = H.quiet_call(agg, arr.copy(), axis)
+            exp = ref_along(arr, axis, a)
+            if kind != "ok":
+                ctx.fail("offset:%s:%s:%s" % (a if isinstance(a, str) else "quantile", kind, site), shape=list(sh), axis=axis)
+            elif not close(exp, got, rtol=1e-8):
+                ctx.fail("offset:%s:value" % (a if isinstance(a, str) else "quantile"), shape=list(sh), axis=axis,
+                         array=arr.tolist(), expected=np.asarray(exp).tolist(), actual=np.asarray(got, dtype=float).tolist(), aggregator=a)
+            ctx.count()
+    if len(set(vals)) == 1:
+        ctx.flag("constant")
+    ctx.observe(tuple(vals))
+    ctx.outcome("ndim=%d" % len(sh))
+    ctx.nontrivial()
+
 
 # ---- -T ----------------------------------------------------------------------------------------------------------
 GRID = [0.0, 1.0, 2.0, 3.0, 6.0, 12.0]
@@ -189,6 +219,7 @@ def h_window(ctx):
 def plan(tier):
     q = tier == "quick"
     return [("arrays", h_arrays, {"shapes": shapes(4 if q else 6), "nanmax": 3 if q else 4}),
+            ("arrays-offset", h_offset, {}),
             ("window", h_window, {"via": "mem", "grids": grids(), "windows": [1, 2, 3, 6, 24], "aggs": (["mean", "sum", "min", "max", "count", "change", "std", "median", 0.5] if q else AG.NAMES + [0.0, 0.5, 1.0]), "thr": 10.0}),
             ("window-cli", h_window, {"via": "cli", "grids": [g for g in grids() if len(g) in ((2, 4) if q else (1, 2, 3, 4))], "windows": [2, 6] if q else [1, 2, 3, 6, 24],
                                       "aggs": ["mean", "sum", "max", "change", "count"] if q else AG.NAMES, "thr": 10.0})]
@@ -202,10 +233,11 @@ def run(tier, only=None):
         t0 = time.time()
         st = explore.explore(h, mode="full", params=params, repo_root=core.REPO, time_cap=(400 if tier == "quick" else 3000))
         bound = {"arrays": "all arrays over a 4-value alphabet in all %d shapes (<= 4 dims, extents 1..3) x all axes x 19 aggregators" % len(params.get("shapes", [])),
+                 "arrays-offset": "all arrays of 4 decimal values on offsets %r in shapes (2,), (3,), (2,2), (2,3) x all axes x 19 aggregators, 1e-8 relative" % (OFFSETS,),
                  "window": "all %d grids x %d windows x %d aggregators x 2 axes x 4 missing-cell variants" % (len(params.get("grids", [])), len(params.get("windows", [])), len(params.get("aggs", []))),
                  "window-cli": "as window on a subset, through -T/-Tagg/-Tx csv"}[name]
         subs.append(core.Sub.from_e1(name, st, bound=bound, rule="one execution = one array (all axes x aggregators) / one (grid, window, aggregator, axis) dataset with 7 request sets x 4 axes",
-                                     required_flags=("irregular",) if name == "window" else (), wall=time.time() - t0))
+                                     required_flags=("irregular",) if name == "window" else ("constant",) if name == "arrays-offset" else (), wall=time.time() - t0))
     return subs
 
 
